@@ -98,6 +98,20 @@ MODULE_FORMS = [
     ("module-function", "{LATE}require {MOD}; {MOD}->run_()"), ("module-function-unqualified", "{LATE}require {MOD} unqualified; run_()"),
     ("module-in-function", "def ld_() do require {MOD} end; ld_()"), ("module-in-callback", "map_list([1], fn(x) do require {MOD}; x end)"),
 ]
+RECURSION_CASES = [
+    ("catch-around-returned-call", "def rec(n) do if n == 0 then error {V}; do return rec(n - 1) catch {V} 'caught in frame ' + string(n) end end; rec(3)", "'caught in frame 1'"),
+    ("catch-around-call", "def rec(n) do if n == 0 then error {V}; do rec(n - 1) catch {V} 'caught in frame ' + string(n) end end; rec(3)", "'caught in frame 1'"),
+    ("finally-around-returned-call", "def order = []; def rec(n) do if n == 0 then do append(order, 'raise'); error {V} end; do return rec(n - 1) finally append(order, n) end end; "
+     "do rec(3) catch {V} order end", "['raise', 1, 2, 3]"),
+    ("finally-around-returned-call-no-error", "def order = []; def rec(n) do if n == 0 then do append(order, 'bottom'); return 'done' end; do return rec(n - 1) finally append(order, n) end end; "
+     "[rec(3), order]", "['done', ['bottom', 1, 2, 3]]"),
+    ("catch-and-finally-around-returned-call", "def order = []; def rec(n) do if n == 0 then error {V}; do return rec(n - 1) catch {V} do append(order, 'c' + string(n)); 'caught' end finally append(order, 'f' + string(n)) end end; "
+     "[rec(2), order]", "['caught', ['c1', 'f1', 'f2']]"),
+    ("mutual-recursion", "def even(n) do if n == 0 then error {V}; do return odd(n - 1) catch {V} 'even caught at ' + string(n) end end; def odd(n) do if n == 0 then error {V}; return even(n - 1) end; even(4)",
+     "'even caught at 2'"),
+    ("handler-calls-itself", "def rec(n) do if n == 0 then 'bottom' else do error {V} catch {V} return rec(n - 1) end end; rec(3)", "'bottom'"),
+    ("accumulator-style", "def rec(n, acc) do if n == 0 then error {V}; do return rec(n - 1, acc + n) catch {V} acc end end; rec(4, 0)", "9"),
+]
 CALLBACK_ERRVALS = ["'E1'", "'ERROR'", "12", "1.5", "[1, 'a']", "<<1>>", "<<<'k' => 1>>>", "TRUE", "NULL", "date('20200101')", "//a//", "''"]
 
 
@@ -181,6 +195,18 @@ def run_callbacks(spec, ctx):
                     ctx.violation("C05:callback-error:%s:%s" % (name, tag),
                                   "%s -> %s %s (expected %s)" % (src, o.kind, core.safe_str(o.value if o.kind == "value" else getattr(o.exc, "value", o.exc), 100),
                                                                 want[1] or "an error carrying " + v), {"src": src})
+    # handlers and finally parts *inside* a recursive function, around the recursive call itself (also when that call is
+    # the operand of `return`): the error of the inner call meets the innermost frame's handler first, and every
+    # frame's finally part runs once, after the inner call has ended
+    for vi, v in enumerate(CALLBACK_ERRVALS):
+        for name, tmpl, want in RECURSION_CASES:
+            src = tmpl.replace("{V}", v)
+            o = ev(src)
+            ctx.count("recursion_error_programs")
+            ctx.case(("recursion", legacy, name, v), nontrivial=True)
+            got = core.safe_str(o.value, 200) if o.kind == "value" else "%s: %s" % (o.kind, core.safe_str(getattr(o.exc, "value", o.exc), 100))
+            if got != want:
+                ctx.violation("C05:recursion:%s" % name, "%s -> %s (expected %s)" % (src, got, want), {"src": src})
     import shutil
     shutil.rmtree(moddir, ignore_errors=True)
 
